@@ -35,18 +35,23 @@ public:
             m_args.push_back({this, i});
         }
         m_threads.resize(n);
-        for (int i = 0; i < n; ++i) {
-            pthread_create(&m_threads[i], nullptr, &Sched::trampoline, &m_args[i]);
-        }
+        m_fresh = fresh_threads;
+        if (!m_fresh) spawn();
     }
     ~Sched()
     {
+        if (m_fresh) return;  // fresh workers are joined at the end of their execution
         m_quit = true;
         for (int i = 0; i < m_n; ++i) {
             give(i);  // the worker sees m_quit and exits; join before the turn word is reused
             pthread_join(m_threads[i], nullptr);
         }
     }
+
+    // With fresh threads every execution starts from newly created workers, so per-thread state of the code under
+    // test (thread_local objects) is the same at the start of every execution and a recorded prefix replays exactly.
+    // With reused workers such state would survive from one schedule into the next.
+    static inline bool fresh_threads = true;
 
     // body(i) is the program of worker i for the next execution(s)
     std::function<void(int)> body;
@@ -56,6 +61,16 @@ public:
     {
         for (int i = 0; i < m_n; ++i) {
             m_state[i] = READY;
+        }
+        if (m_fresh) spawn();
+    }
+    void end_execution()
+    {
+        if (!m_fresh) return;
+        for (int i = 0; i < m_n; ++i) {
+            // a worker that never left a blocking primitive (deadlock verdict) cannot be joined; it is left behind
+            if (m_state[i] == FINISHED) pthread_join(m_threads[i], nullptr);
+            else pthread_detach(m_threads[i]);
         }
     }
     bool enabled(int i) const
@@ -134,6 +149,12 @@ private:
         arg->s->worker(arg->id);
         return nullptr;
     }
+    void spawn()
+    {
+        for (int i = 0; i < m_n; ++i) {
+            pthread_create(&m_threads[i], nullptr, &Sched::trampoline, &m_args[i]);
+        }
+    }
     void worker(int i)
     {
         tl_id = i;
@@ -146,7 +167,9 @@ private:
             body(i);
             tl_active = false;
             m_state[i] = FINISHED;
+            const bool fresh = m_fresh;
             give(MAIN);
+            if (fresh) return;
         }
     }
     void give(int who)
@@ -178,6 +201,7 @@ private:
     std::atomic<int> m_turn;
     std::vector<St> m_state;
     std::atomic<bool> m_quit;
+    bool m_fresh = false;
     std::vector<Arg> m_args;
     std::vector<pthread_t> m_threads;
 };
@@ -196,6 +220,7 @@ struct Execution {
     std::vector<Point> points;
     std::vector<int> order;            // thread id chosen at each point
     int preemptions = 0;
+    bool diverged = false;             // a prefix choice was out of range; the execution was completed with choice 0
     bool deadlock = false;             // ended with threads blocked on each other (through interposed primitives)
 };
 
@@ -218,7 +243,10 @@ inline bool run_schedule(Sched & s, const std::vector<int> & prefix, Execution &
         if (k < prefix.size()) {
             ci = prefix[k];
             if (ci < 0 || ci >= static_cast<int>(p.enabled.size())) {
-                return false;  // divergence while replaying a prefix
+                // divergence while replaying a prefix: the workers are run to completion (nobody is left inside a
+                // body), the caller is told
+                x.diverged = true;
+                ci = 0;
             }
         }
         p.chosen_index = ci;
@@ -232,7 +260,8 @@ inline bool run_schedule(Sched & s, const std::vector<int> & prefix, Execution &
         ++k;
     }
     x.deadlock = s.any_blocked();  // nobody enabled, somebody still waiting for a resource another waiter holds
-    return true;
+    s.end_execution();
+    return !x.diverged;
 }
 
 // Depth-first enumeration of all schedules with at most `bound` preemptions (bound < 0: unbounded).
